@@ -1,7 +1,8 @@
 INIT Init
 NEXT Next
 CONSTANTS
-  MaxRetry <- EnvMaxRetry
+  MaxRetryC <- EnvMaxRetryC
+  MaxRetryR <- EnvMaxRetryR
   MaxFail = 4
   MaxDepth = 1
   MaxKids = 0
